@@ -111,13 +111,30 @@ theorem declEncoding_spec {s : Stream} (hs : SOk txt s) : RSpec (declEncoding T 
     exact rspec_weaken (declStandalone_spec T hT txt h2.2) (fun _ h => Step.trans h1 (Step.trans h2 h))
   · exact declStandalone_spec T hT txt hs
 
-theorem parseDeclaration_spec {s : Stream} (hs : SOk txt s) (hp : s.startsWith Lit.xmlDecl = true) :
+omit hT in
+/-- `<?xml` + white space begins, in particular, with the five bytes `<?xml` -/
+theorem startsWithXmlDecl_open {s : Stream} (hp : s.startsWithXmlDecl T = true) :
+    s.startsWith Lit.xmlDeclOpen = true := by
+  unfold Stream.startsWithXmlDecl at hp
+  exact (Bool.and_eq_true _ _ ▸ hp).1
+
+omit hT in
+/-- no `<?xml`, no XML declaration -/
+theorem startsWithXmlDecl_false_of_open {s : Stream} (hp : s.startsWith Lit.xmlDeclOpen = false) :
+    s.startsWithXmlDecl T = false := by
+  unfold Stream.startsWithXmlDecl
+  rw [hp]; rfl
+
+omit hT in
+/-- `<?xml` + a white-space byte is an XML declaration opening -/
+theorem startsWithXmlDecl_cons (p : Nat) (b : UInt8) (r : Bytes) (hb : byteIsSpace T b = true) :
+    Stream.startsWithXmlDecl T ⟨p, 60 :: 63 :: 120 :: 109 :: 108 :: b :: r⟩ = true := by
+  simp [Stream.startsWithXmlDecl, Stream.startsWith, Lit.xmlDeclOpen, List.isPrefixOf, hb]
+
+theorem parseDeclaration_spec {s : Stream} (hs : SOk txt s) (hp : s.startsWithXmlDecl T = true) :
     RSpec (parseDeclaration T txt s) (Step txt s) := by
   unfold parseDeclaration
-  have h5 : s.startsWith [60, 63, 120, 109, 108] = true := by
-    have := List.isPrefixOf_iff_prefix.mp hp
-    apply List.isPrefixOf_iff_prefix.mpr
-    exact List.IsPrefix.trans (by decide : ([60, 63, 120, 109, 108] : Bytes) <+: Lit.xmlDecl) this
+  have h5 : s.startsWith [60, 63, 120, 109, 108] = true := startsWithXmlDecl_open T hp
   apply rspec_bind _ _ (fun s1 => Step txt s s1)
   · exact rspec_weaken (advance_lit hs [60, 63, 120, 109, 108] h5 (lit_valid _ (by decide))) (fun _ h => h.1)
   intro s1 h1
